@@ -211,6 +211,24 @@ type vsPoolCfg struct {
 	Policy  string `json:"policy,omitempty"`
 	// FailRelease (C09): wrap the first interface so that Release can be made to fail once
 	FailRelease bool `json:"fail_release,omitempty"`
+	// Trunk: the first pre-attached interface is the node's trunk interface (enable_eni_trunking):
+	// its pool sits behind eni.Trunk, as NetworkServiceBuilder.setupENIManager wires it
+	Trunk bool `json:"trunk,omitempty"`
+}
+
+// vsAddPreENIs creates the pre-attached interfaces of a pool configuration in the cloud.
+func vsAddPreENIs(cloud *cloudsim.Cloud, cfg vsPoolCfg) {
+	for i, n := range cfg.PreENIs {
+		n6 := 0
+		if cfg.V6 {
+			n6 = n
+		}
+		typ := "secondary"
+		if cfg.Trunk && i == 0 {
+			typ = "trunk"
+		}
+		cloud.AddENI(typ, n, n6)
+	}
 }
 
 // vsFailNI wraps a pool interface and makes Release fail once for listed pods (a cleanup
@@ -348,6 +366,12 @@ func vsStart(cfg vsPoolCfg, cloud *cloudsim.Cloud, k *vsK8s, dir, dbPath string)
 	var nis []eni.NetworkInterface
 	maxENI := len(cfg.PreENIs) + cfg.Slots
 	for _, a := range attached {
+		if cfg.Trunk && a.Trunk {
+			lo := eni.NewLocal(a, "trunk", fac, pc)
+			w.locals = append(w.locals, lo)
+			nis = append(nis, eni.NewTrunk(nil, lo))
+			continue
+		}
 		lo := eni.NewLocal(a, "secondary", fac, pc)
 		w.locals = append(w.locals, lo)
 		nis = append(nis, lo)
@@ -375,11 +399,10 @@ func vsStart(cfg vsPoolCfg, cloud *cloudsim.Cloud, k *vsK8s, dir, dbPath string)
 		ipamType:   types.IPAMTypeDefault,
 	}
 	w.ctx, w.cancel = context.WithCancel(context.Background())
-	for _, ni := range nis {
-		if err := ni.Run(w.ctx, podResources, &w.svc.wg); err != nil {
-			w.cancel()
-			return nil, fmt.Errorf("pool start: %w", err)
-		}
+	// sync period 0: the periodic balancer is not started, the harnesses drive it themselves
+	if err := mgr.Run(w.ctx, &w.svc.wg, podResources); err != nil {
+		w.cancel()
+		return nil, fmt.Errorf("pool start: %w", err)
 	}
 	return w, nil
 }
